@@ -96,14 +96,13 @@ SampleF(w, v, i) ==
 (*    then) the outcome is outside every listed property: the footprint    *)
 (*    and headers are as specified but the written values are taken from   *)
 (*    the observation `seen' (havoc + resync).                             *)
-(*  - does not fit: dst moves to a fresh array of `newcap' cells (the Go    *)
-(*    runtime picks the size; any whole number of frames >= the length is  *)
-(*    allowed; when the total length is NOT a whole number of frames no    *)
-(*    listed property constrains the capacity, so any capacity >= the      *)
-(*    length is accepted), old storage untouched.  This holds for partly   *)
-(*    filled last                                                          *)
-(*    frames too (C12: Go append at the cell level); before the fix of the *)
-(*    library a growing append with an unaligned total could panic.        *)
+(*  - does not fit: dst moves to a fresh array of `newcap' cells, the old   *)
+(*    storage is untouched.  The Go runtime picks the size: any whole      *)
+(*    number of frames >= the new length is allowed (C03).  When the new   *)
+(*    length ends inside a frame (after AppendSample) no listed property   *)
+(*    constrains the capacity, so any capacity >= the length is accepted;  *)
+(*    the cells are still those of Go's append (C12).  (Before the library *)
+(*    was fixed such an append could panic half-way.)                      *)
 (***************************************************************************)
 WrittenByAppend(d, s) == (d.off + d.len + 1) .. (d.off + d.len + s.len)
 AppendOverlaps(d, s)  == d.a = s.a /\ Readable(s) \cap WrittenByAppend(d, s) # {}
